@@ -695,9 +695,8 @@ func inlineClause(cl string) bool {
 //     or ends inside what the scanner skips as inline HTML;
 //   - ld-paren-title-with-paren: one line with a parenthesised title that contains an unescaped
 //     `(` (not a title in CommonMark; parseTitle accepts it);
-//   - ld-rewritten-url-unbalanced-paren: one line whose destination has balanced parentheses
-//     with a `?` or `#` between them; the rewritten URL has the `(` percent-encoded in its
-//     path and the `)` bare in its query or fragment, which ends the destination early;
+//   - ld-rewritten-url-unbalanced-paren: one line for which the replacer wrote a URL with
+//     unbalanced parentheses (bare in a query or fragment), which ends the destination early;
 //   - ld-escapable-set-incomplete: the rewritten URL keeps a backslash because the destination
 //     has a backslash escape of an ASCII punctuation byte that isMarkdownEscapable lacks;
 //   - ld-character-reference-in-destination: the destination has a character reference, which
@@ -765,7 +764,32 @@ func init() {
 			}},
 		{id: "ld-rewritten-url-unbalanced-paren", minimal: "[a]:(?)", clause: "only-destinations-change",
 			class: func(sh, cl, detail string) bool {
-				return inlineClause(cl) && catOf(detail) == "inline" && !strings.Contains(sh, "\n") && reParenThenQueryParen.MatchString(sh)
+				// cause: a replacement text the replacer itself wrote has unbalanced parentheses
+				// (net/url leaves `(` `)` bare in a query or fragment, markdownURLEscape escapes only
+				// backslashes), which ends the bare destination early
+				if !inlineClause(cl) || catOf(detail) != "inline" || strings.Contains(sh, "\n") {
+					return false
+				}
+				rs, err := runReal([]tcase{{Op: "replace", Src: hexs(sh), Base: baseURL, Dir: dirName}})
+				if err != nil {
+					return false
+				}
+				for _, rp := range rs[0].Repls {
+					depth := 0
+					for _, ch := range unhex(rp[2]) {
+						if ch == '(' {
+							depth++
+						} else if ch == ')' {
+							if depth--; depth < 0 {
+								return true
+							}
+						}
+					}
+					if depth != 0 {
+						return true
+					}
+				}
+				return false
 			}},
 		{id: "ld-nested-link-syntax", minimal: "[[](<>\"](\")", clause: "only-destinations-change",
 			class: func(sh, cl, detail string) bool {
@@ -855,9 +879,6 @@ func bracketDepth(prefix string) int {
 	return d
 }
 
-// a destination with a `(` and, after a `?` or `#`, its `)`: the `)` lands in the query or
-// fragment of the rewritten URL, where net/url leaves it as it is
-var reParenThenQueryParen = regexp.MustCompile(`\([^()\s]*[?#][^()\s]*\)`)
 var reCharRef = regexp.MustCompile(`&(#[0-9]+|#[xX][0-9a-fA-F]+|[A-Za-z][A-Za-z0-9]*);`)
 
 func classify(c *hx.Ctx, shrunk, clause, detail string) string {
